@@ -97,11 +97,13 @@ def alphabet(seed):
     if seed == 'flat':
         ops += [['upd_edge', list(e1), 7.0], ['upd_edge', ['dd/so/x', 'a/to/u'], -1.25],
                 ['add_matrix'], ['upd_edge', ['dd/so/x', 'cc/to/u'], 4.5],
-                ['derive_upd', list(e1), 9.5], ['derive_keep']]
+                ['derive_upd', list(e1), 9.5], ['derive_keep'], ['add_matrix_attr']]
     else:
         ops += [['upd_edge', ['c2/dd/so/x', 'c1/a/to/u'], -1.25], ['upd', 'c1/all/so/c', 0.7],
                 ['derive_upd', ['c2/dd/so/x', 'c1/a/to/u'], 9.5], ['derive_keep']]
-    ops += [['apply_nv', f'{A}/so/k', 9.0], ['apply_nv', f'{D}/so/x', 0.77]]
+    ops += [['apply_nv', f'{A}/so/k', 9.0], ['apply_nv', f'{D}/so/x', 0.77],
+            # several entries that address the same variable: a wildcard first, then an exception (later entries win)
+            ['apply_nv2', [[f'{ALL}/so/k', 5.0], [f'{B}/so/k', 7.0]]], ['apply_nv2', [[f'{B}/so/x', 0.21], [f'{ALL}/so/x', 0.31]]]]
     return ops
 
 
@@ -122,7 +124,7 @@ def cases(tier, seed):
         ops = alphabet(s)
         for d in range(0, depth + 1):
             for h in itertools.product(range(len(ops)), repeat=d):
-                if d == 3 and sum(ops[i][0] == 'apply_nv' for i in h) > 1:
+                if d == 3 and sum(ops[i][0].startswith('apply_nv') for i in h) > 1:
                     continue
                 for vec in (False, True):
                     out.append({'seed': s, 'history': [ops[i] for i in h], 'vectorize': vec})
@@ -228,6 +230,41 @@ def run_case(case):
                 edges[('cc/so/x', 'cc/to/u')] = {'weight': 1.25}
                 edges[('dd/so/x', 'cc/to/u')] = {'weight': 0.75}
                 sig['features'] = sorted(set(sig['features']) | {'edges_added_in_place'})
+            elif kind == 'add_matrix_attr':
+                # two calls that are given the SAME edge_attr dictionary with a matrix-valued attribute
+                if ('dd/so/x', 'cc/to/u') in edges or ('cc/so/x', 'dd/to/u') in edges:
+                    res.update(rejected=True, ok=True, outcome='matrix_twice')
+                    return res
+                attr = {'delay': np.array([[0.5, 0.25]])}
+                c.add_edges_from_matrix('so/x', 'to/u', source_nodes=['cc', 'dd'], target_nodes=['cc'],
+                                        weight=np.array([[1.25, 0.75]]), edge_attr=attr)
+                c.add_edges_from_matrix('so/x', 'to/u', source_nodes=['cc', 'b'], target_nodes=['dd'],
+                                        weight=np.array([[0.3, -0.6]]), edge_attr=attr)
+                if sorted(attr) != ['delay'] or np.asarray(attr['delay']).shape != (1, 2):
+                    return viol('caller_dictionary_changed', got={k: str(v) for k, v in attr.items()})
+                want = {('cc/so/x', 'cc/to/u'): 0.5, ('dd/so/x', 'cc/to/u'): 0.25, ('cc/so/x', 'dd/to/u'): 0.5,
+                        ('b/so/x', 'dd/to/u'): 0.25}
+                for (s_, t_), d_ in want.items():
+                    e_attr = c.get_edge(s_, t_)[3]
+                    if e_attr.get('delay') is None or abs(float(e_attr['delay']) - d_) > 1e-12:
+                        return viol('matrix_attribute_lost', edge=[s_, t_], got={k: str(v) for k, v in e_attr.items()})
+                    e_attr.pop('delay')      # the observation below compares undelayed derivatives
+                edges[('cc/so/x', 'cc/to/u')] = {'weight': 1.25}
+                edges[('dd/so/x', 'cc/to/u')] = {'weight': 0.75}
+                edges[('cc/so/x', 'dd/to/u')] = {'weight': 0.3}
+                edges[('b/so/x', 'dd/to/u')] = {'weight': -0.6}
+                sig['features'] = sorted(set(sig['features']) | {'edges_added_in_place'})
+            elif kind == 'apply_nv2':
+                sig['features'] = sorted(set(sig['features']) | {'apply_node_values'})
+                Cn, got = observe(c, nodes, case['vectorize'], node_values={k_: v_ for k_, v_ in op[1]})
+                exp = dict(ref)
+                for k_, v_ in op[1]:
+                    tn, key = match(k_, nodes)
+                    for n in tn:
+                        exp[f'{n}/{key}'] = v_
+                bad = {p: (got[p], exp[p]) for p in got if got[p] is not None and abs(got[p] - exp[p]) > 1e-12}
+                if bad:
+                    return viol('apply_node_values_wrong_targets', step=i, op=op, wrong=bad)
             elif kind == 'apply_nv':
                 # compile-time override: visible in that compilation only
                 sig['features'] = sorted(set(sig['features']) | {'apply_node_values'})
@@ -286,7 +323,7 @@ def run_case(case):
             if abs(g - exp) > 1e-10:
                 return viol('derived_circuit_edges_follow_parent', node=n, got=g, expected=exp, history=case['history'])
     # the same template object compiled in place, an initial value updated, compiled in place again
-    if not any(o[0] == 'apply_nv' for o in case['history']):
+    if not any(o[0].startswith('apply_nv') for o in case['history']):
         from .. import impl
         try:
             C1 = impl.compile_field(c, {'vectorize': case['vectorize']})
